@@ -357,7 +357,7 @@ class Folder:
                     path = ".".join(reversed(names))
                     return (pv, (pv.prefix + "." + path) if pv.prefix else path, pv.t if not pv.prefix else None)
                 return (x["d"], ".".join(reversed(names)), x.get("t"))
-        raise NotConst("lvalue %s" % (n0.get("k") if n0 else None))
+        raise NotConst("lvalue %s %s" % (n0.get("k") if n0 else None, (n0.get("n"), n0.get("dk")) if n0 else ""))
 
     def load(self, key):
         if not isinstance(key, tuple):
